@@ -698,7 +698,8 @@ KINDS["schema"] = dict(module="Trace_Schema", shrink=None, describe=describe_sch
 def run_schema(ctx, focus, quick_graph_stride):
     vlib.TRACE_CFG["Trace_Schema"] = 'CONSTANT Focus = "%s"\n' % focus
     q = ctx.quick
-    g3 = "CONSTANT NodesN = 3\nCONSTANT GStride = 1\n"
+    nobig = "CONSTANT BigK = 0\nCONSTANT BigSeed = 0\n"
+    g3 = "CONSTANT NodesN = 3\nCONSTANT GStride = 1\n" + nobig
     vlib.tlc_check(ctx, "m1.graphs", "MC_SchemaGen", 'INIT Init\nNEXT Next\nCONSTANT Family = "graphs"\nINVARIANT Total\nCHECK_DEADLOCK FALSE\n' + g3,
                    ["mc/MC_SchemaGen.tla"])
 
@@ -714,8 +715,15 @@ def run_schema(ctx, focus, quick_graph_stride):
                           cfg=GEN_CFG + 'CONSTANT Family = "graphs"\n' + g3, min_cases=3500, timeout=7200)
     if not q:       # four nodes: every 13th of the 65536 graphs per relation (about 5000 graphs, 35000 schemas), M1 included
         add_gen_exec_validate(ctx, "schema", "graphs4", "MC_SchemaGen", ["mc/MC_SchemaGen.tla"],
-                              cfg=GEN_CFG + 'CONSTANT Family = "graphs"\nINVARIANT Total\nCONSTANT NodesN = 4\nCONSTANT GStride = 13\n',
+                              cfg=GEN_CFG + 'CONSTANT Family = "graphs"\nINVARIANT Total\nCONSTANT NodesN = 4\nCONSTANT GStride = 13\n' + nobig,
                               min_cases=20000, timeout=7200)
+    # graphs too large to enumerate: pseudo-random graphs on five and six nodes (DAGs / loop-free / arbitrary, four
+    # densities), drawn by a hash seeded with VERIF_SEED; M1 (Total) is checked on them while they are generated
+    for nodes, k in ((5, 60 if q else 1500), (6, 90 if q else 2500)):
+        add_gen_exec_validate(ctx, "schema", "big%d" % nodes, "MC_SchemaGen", ["mc/MC_SchemaGen.tla"],
+                              cfg=GEN_CFG + 'CONSTANT Family = "big"\nINVARIANT Total\nCONSTANT NodesN = %d\nCONSTANT GStride = 1\n'
+                                            'CONSTANT BigK = %d\nCONSTANT BigSeed = %d\n' % (nodes, k, ctx.seed),
+                              min_cases=k * 5, timeout=7200)
 
 
 @prop("C17")
